@@ -38,6 +38,10 @@ class World:
         mk = lambda N, lam, nm: M.Link(N, lam, 1.0, 180.0, 33.0 + N, 100.0 + lam, 1.8 + 0.1 * N, name=nm)  # noqa: E731
         self.N = [M.Node(name=f"N{i}") for i in range(6)]
         self.L1, self.L2, self.L3, self.L0 = mk(2, 3, "L1"), mk(1, 2, "L2"), mk(2, 2, "L3"), mk(1, 1, "L0")
+        if rng.random() < 0.3:
+            # integer way ids as names: an element's name is the caller's label, whatever its type
+            self.L3.name, self.L1.name = 4401, 4400
+            self.int_names = True
         self.L1b = M.LinkWithVsl(2, 3, 1.0, 180.0, 34.0, 105.0, 1.9, name="L1b", segments_with_vsl={1}, alpha=0.1)
         ideal = (rng.random() < 0.3) if ideal_first_origin is None else ideal_first_origin
         self.O1 = M.Origin(name="O1") if ideal else M.MeteredOnRamp(3000.0, name="O1")  # sometimes variable-less
@@ -45,7 +49,7 @@ class World:
         self.O1b = M.MainstreamOrigin(name=("L0" if pr(0.3) else "O1b"))
         # names may clash with other elements' names (uniqueness is by object, not by name)
         clash = pr(0.5)
-        self.O2 = M.SimplifiedMeteredOnRamp(2000.0, name=("L2" if clash else "O2"))
+        self.O2 = M.SimplifiedMeteredOnRamp(2000.0, name=(9001 if getattr(self, "int_names", False) else ("L2" if clash else "O2")))
         # kinds vary between worlds (elements with only disturbances / only states / no variables)
         self.D1 = (M.CongestedDestination if rng.random() < 0.6 else M.Destination)(name="D1")
         self.D1b = (M.CongestedDestination if rng.random() < 0.7 else M.Destination)(name="D1b")
